@@ -296,8 +296,15 @@ def check_layering(run, inp, layers, nodes, o, reported=False):
             run.violation("C04.single_layer_unbounded", inp, {"layers": len(layers)})
         return
     budget = o["density"] * lw
-    if o["algorithm"] != "none" and req <= budget * (1 - 1e-9) and len(layers) != 1:
-        run.violation("C04.single_layer_fits", inp, {"layers": len(layers), "required": req, "budget": budget})
+    # "labels that fit the density budget stay in a single layer": fit = required <= budget.  The boundary case required ==
+    # budget is asserted when the float arithmetic of both sides is EXACT (checked in rationals); otherwise a relative 1e-9
+    # band around equality is left undecided (A-REAL).
+    req_q = sum(Fr(n.width) for n in nodes) + (nlab - 1) * Fr(o["nodeSpacing"])
+    bud_q = Fr(o["density"]) * Fr(lw)
+    exact = Fr(req) == req_q and Fr(budget) == bud_q
+    fits = (req_q <= bud_q) if exact else (req <= budget * (1 - 1e-9))
+    if o["algorithm"] != "none" and fits and len(layers) != 1:
+        run.violation("C04.single_layer_fits", inp, {"layers": len(layers), "required": req, "budget": budget, "exact_arithmetic": exact})
     if o["algorithm"] == "none" and len(layers) != 1:
         run.violation("C04.single_layer_none", inp, {"layers": len(layers)})
     if o["algorithm"] == "overlap" and nlab >= 3 and req > budget * (1 + 1e-9):
@@ -374,18 +381,24 @@ WIDTHS = [1.0, 2.0, 3.5]
 
 
 def option_matrix(labels, quick):
-    """bounds x spacing x algorithm x stub width (S-CHAIN of DESIGN section 4)."""
+    """bounds x spacing x algorithm x stub width (S-CHAIN of DESIGN section 4), incl. a zero upper bound and an exactly met
+    density budget."""
     tot = sum(w for _, w in labels)
     n = len(labels)
     out = []
     for ns in (0, 3):
         exact = tot + (n - 1) * ns
+        # (.., 0): a bound that is exactly zero (falsy); (-exact - 2, 0): the items fit below an upper bound of zero
         bounds = [(None, None), (0, None), (None, 7.0), (0, exact), (0, max(1.0, exact - 0.5)), (0, max(1.0, exact / 3.0)),
-                  (-2.5, 9.5)]
+                  (-2.5, 9.5), (None, 0), (-(exact + 2.0), 0)]
         for (mn, mx) in bounds:
             for alg in ("overlap", "simple", "none"):
                 for sw in ((1,) if quick else (0, 1)):
                     out.append({"minPos": mn, "maxPos": mx, "nodeSpacing": ns, "algorithm": alg, "stubWidth": sw})
+        # the density budget met EXACTLY (required width == density * layer width): the labels fit
+        for alg in ("overlap", "simple"):
+            out.append({"minPos": 0, "maxPos": exact, "nodeSpacing": ns, "algorithm": alg, "stubWidth": 1, "density": 1.0})
+            out.append({"minPos": -exact, "maxPos": exact, "nodeSpacing": ns, "algorithm": alg, "stubWidth": 1, "density": 0.5})
     return out
 
 
